@@ -732,13 +732,25 @@ def _run_arrangles(case, ck):
     for deg in ((30.0, 45.0, 60.0), (10.0, 0.0, 350.0)):
         ref = euler_zyz(*[math.radians(v) for v in deg])
         for form in ("0-d float array", "0-d int array", "np.float64",
-                     "np.int64"):
+                     "np.int64", "np.int8", "np.uint8", "np.int16",
+                     "np.float32", "np.float16", "0-d int8 array"):
             mk = {"0-d float array": lambda v: np.array(v),
                   "0-d int array": lambda v: np.array(int(v)),
                   "np.float64": lambda v: np.float64(v),
-                  "np.int64": lambda v: np.int64(int(v))}[form]
+                  "np.int64": lambda v: np.int64(int(v)),
+                  # narrow types: the conversion to radians must not be
+                  # made in the angle's own type (all values are exact in
+                  # every one of these types, 350 -> 94 in the 8-bit ones)
+                  "np.int8": lambda v: np.int8(int(v) % 128),
+                  "np.uint8": lambda v: np.uint8(int(v) % 256),
+                  "np.int16": lambda v: np.int16(int(v)),
+                  "np.float32": lambda v: np.float32(v),
+                  "np.float16": lambda v: np.float16(v),
+                  "0-d int8 array": lambda v: np.array(int(v) % 128,
+                                                       dtype="int8")}[form]
             args = [mk(v) for v in deg]
             before = [float(v) for v in args]
+            ref = euler_zyz(*[math.radians(v) for v in before])
             for call in (1, 2):
                 try:
                     R = np.asarray(rotation_matrix(*args, radians=False))
